@@ -78,6 +78,11 @@ SweepTransforms ==
   { TrTLV(tt, tid, at, D(n, 40 + n)) : tt \in {1, 2}, tid \in {12, 65535}, at \in {14, 32767}, n \in (1..9) \cup {255, 256, 1000} }
   \cup { TrTV(tt, 12, at, av) : tt \in {1, 5}, at \in {0, 14, 32767}, av \in {0, 1, 2, 255, 256, 65535} }
   \cup { TrNone(tt, tid) : tt \in 1..5, tid \in {0, 1, 255, 256, 65535} }
+  \* every transform type x every identifier 0..31 x a Key Length attribute in both formats / no attribute (the full product: a builder
+  \* that knows which ciphers have fixed keys must still put in what it is given)
+  \cup { TrTV(tt, tid, 14, 64 * (1 + (tid % 4))) : tt \in 1..5, tid \in 0..31 }
+  \cup { TrTLV(tt, tid, 14, << 0, 128 >>) : tt \in 1..5, tid \in 0..31 }
+  \cup { TrNone(tt, tid) : tt \in 1..5, tid \in 0..31 }
 SweepPrograms ==
   { << C("SecurityAssociation", TRUE, [x |-> 0]), C("Proposal", FALSE, [num |-> 1, proto |-> 1, spi |-> << >>]), C("Transform", FALSE, t) >> : t \in SweepTransforms }
   \cup { << C("SecurityAssociation", TRUE, [x |-> 0]), C("Proposal", FALSE, [num |-> n % 256, proto |-> 3, spi |-> D(n, 41)]), C("Transform", FALSE, TrNone(1, 12)) >> :
